@@ -60,6 +60,18 @@ Notation gstep := (gstep enc enc_write enc_flush enc_finish).
 Notation grun := (grun enc enc_write enc_flush enc_finish).
 Notation session := (session enc enc_write enc_flush enc_finish).
 
+(* one round of GzEncoder::flush on a live session *)
+Lemma gflush1_live s e : Good s -> Live s ->
+  exists s2 e' wk em, gflush1 enc enc_flush s e = (s2, Some e', wk, em) /\ enc_flush e = (e', em) /\
+    Good s2 /\ Live s2 /\ c_cap s2 = c_cap s /\ c_buf s2 = [] /\ pending s2 = pending s ++ c_buf s ++ em.
+Proof.
+  intros HG HL. unfold gflush1. destruct (enc_flush e) as [e' em] eqn:Ef.
+  destruct (write_all_step_live s em HG HL) as (s1 & wk & E & HG1 & HL1 & Hc1 & Hacc1). rewrite E.
+  destruct (flush_step_live s1 HG1 HL1) as (s2 & wk2 & E2 & HG2 & HL2 & Hc2 & Hb2 & Hp2). rewrite E2.
+  exists s2, e', (wk ++ wk2), em. split; [reflexivity|]. split; [reflexivity|]. split; [exact HG2|]. split; [exact HL2|].
+  split; [congruence|]. split; [exact Hb2|]. rewrite Hp2. exact Hacc1.
+Qed.
+
 Definition succeeded (o : cop) (r : copres) : Prop :=
   match o, r with OWrite _, RWrite (Some _) => True | OFlush, RIo true => True | OPoll _, _ => True | _, _ => False end.
 
@@ -97,20 +109,19 @@ Proof.
       * cbn [del_total flat_map fst delivered_of app]. fold (del_total rs). rewrite <- Hacc.
         rewrite !app_assoc. rewrite <- (app_assoc (pending s)). rewrite <- Hacc1. now rewrite <- !app_assoc.
       * apply Hlast; [exact Hfl|]. destruct t; [right; exact I|left; discriminate].
-    + (* flush *)
-      destruct (enc_flush e) as [e' em] eqn:Ef.
-      destruct (write_all_step_live s em HG HL) as (s1 & wk & E & HG1 & HL1 & Hc1 & Hacc1). rewrite E.
-      destruct (flush_step_live s1 HG1 HL1) as (s2 & wk2 & E2 & HG2 & HL2 & Hc2 & Hb2 & Hp2). rewrite E2.
-      pose proof (IH s2 e' HG2 HL2 Ht) as IH2. destruct (grun s2 (GGz enc e') t) as [[[sf gf] rs] ems] eqn:Er.
+    + (* flush: two rounds of GzEncoder::flush *)
+      destruct (gflush1_live s e HG HL) as (s2 & e1 & wk1 & em1 & E1 & Ef1 & HG2 & HL2 & Hc2 & Hb2 & Hp2). rewrite E1.
+      destruct (gflush1_live s2 e1 HG2 HL2) as (s4 & e2 & wk2 & em2 & E2 & Ef2 & HG4 & HL4 & Hc4 & Hb4 & Hp4). rewrite E2.
+      pose proof (IH s4 e2 HG4 HL4 Ht) as IH2. destruct (grun s4 (GGz enc e2) t) as [[[sf gf] rs] ems] eqn:Er.
       destruct IH2 as (HGf & HLf & Hcf & HF2 & (ef & Egf & Hses) & Hacc & Hfl).
       split; [exact HGf|]. split; [exact HLf|]. split; [congruence|].
       split; [constructor; [exact I|exact HF2]|].
-      split; [exists ef; split; [exact Egf|intros rest; cbn [app session]; rewrite Ef, Hses; now rewrite app_assoc]|].
+      split; [exists ef; split; [exact Egf|intros rest; cbn [app session]; rewrite Ef1, Ef2, Hses; now rewrite <- !app_assoc]|].
       split.
       * cbn [del_total flat_map fst delivered_of app]. fold (del_total rs). rewrite <- Hacc.
-        rewrite Hp2, Hb2. rewrite <- !app_assoc. cbn [app]. rewrite (app_assoc (pending s1)), Hacc1. now rewrite <- !app_assoc.
+        rewrite Hp4, Hb4, Hp2, Hb2. rewrite <- !app_assoc. cbn [app]. reflexivity.
       * apply Hlast; [exact Hfl|]. destruct t as [|o2 t2]; [right|left; discriminate].
-        cbn [grun] in Er. inversion Er; subst. exact Hb2.
+        cbn [grun] in Er. inversion Er; subst. exact Hb4.
     + (* poll *)
       pose proof (poll_step_live s w HG HL) as Hp. destruct (cstep s (OPoll w)) as [[s1 r] wk].
       destruct Hp as (HG1 & HL1 & Hc1 & Hacc1).
